@@ -308,7 +308,10 @@ Made(r, q, c, R) == /\ Len(R) <= MaxLen
                     /\ objs' = Append(IF Variant = "inplace" /\ c.op \in SingleOps THEN [objs EXCEPT ![r] = R] ELSE objs, R)
                     /\ hist' = Append(hist, NewRec(c, r, q, R))
 (* a filter shortcut on receiver r *)
-DoShortcut(r, c) == /\ c.op \in ShortcutOps /\ Made(r, 0, c, ApplyShortcut(objs[r], c))
+Endless(p) == p[1].k = "Bandit" /\ p[1].a[1] = -1          \* n_interactions = None: the environment never ends; materialize READS (944), so it is not for these
+DoShortcut(r, c) == /\ c.op \in ShortcutOps
+                    /\ c.op = "materialize" => \A i \in DOMAIN objs[r] : ~Endless(objs[r][i])
+                    /\ Made(r, 0, c, ApplyShortcut(objs[r], c))
 (* a static constructor (the receiver plays no part: r = 0) *)
 DoConstruct(c)   == /\ c.op \in ConstructOps
                     /\ LET R == Construct(c) IN /\ Len(R) <= MaxLen /\ objs' = Append(objs, R) /\ hist' = Append(hist, NewRec(c, 0, 0, R))
